@@ -263,6 +263,26 @@ def numberToXUncert (f : Fmt) (fmt : Option Int) (mag unc : Rat) (unit : Option 
   let flt ← floatStrWUncert mag unc (fmt.getD (defaultUncertPrecision : Int))
   renderX f flt (unitSuffix f unit)
 
+/-- the first line of `_number_to_X`: `uncertainty = uncertainty or getattr(number, "uncertainty", None)`.
+    `explicit`: the `uncertainty=` argument (`none` = None), `carried`: `number.uncertainty` if the number has one.
+    Python's `or` tests TRUTHINESS: an explicit `0`, `0.0` or zero quantity is falsy and falls through to the carried value;
+    a carried zero is returned as it is (the right operand of `or` is not tested). -/
+def effectiveUncertainty (explicit carried : Option Rat) : Option Rat :=
+  match explicit with
+  | some u => if u = 0 then carried else some u
+  | none => carried
+
+/-- `number_to_scientific_X(number, uncertainty, unit, fmt)` for every combination of explicit / carried uncertainty: without an
+    effective uncertainty the PLAIN branch is taken and an int `fmt` means significant digits (a negative one gives the format `%.-1g`
+    → ValueError); with one — even a zero one — `fmt` means uncertainty digits and `_float_str_w_uncert` is called (zero → ValueError) -/
+def numberToXAny (f : Fmt) (fmt : Option Int) (mag : Rat) (explicit carried : Option Rat) (unit : Option (List Char)) : Res :=
+  match effectiveUncertainty explicit carried with
+  | none =>
+    match fmt with
+    | none => numberToX f none mag unit
+    | some p => if p < 0 then throw "ValueError" else numberToX f (some p.toNat) mag unit
+  | some unc => numberToXUncert f fmt mag unc unit
+
 /-! ### `roman` -/
 
 /-- the loop of `roman` over `zip(tokens, values)` on a non-negative `num`: emitted (token, value) list
